@@ -1,7 +1,7 @@
 (* C20 — the discipline instantiated at the table regenerated from the Go source
    (Gen/LockSet.v).  Everything here is re-checked by vm_compute on every run. *)
 From Coq Require Import String List NArith Bool.
-From SeataV Require Import Conc.LockSet Conc.LockSetProofs Conc.LockSetListing Conc.Accounting Conc.AccountingProofs Conc.Reent Conc.ReentProofs.
+From SeataV Require Import Conc.LockSet Conc.LockSetProofs Conc.LockSetListing Conc.Accounting Conc.AccountingProofs Conc.Reent Conc.ReentProofs Conc.Order Conc.OrderProofs.
 From SeataV Require Gen.LockSet.
 Import ListNotations.
 Open Scope string_scope.
@@ -48,7 +48,7 @@ Proof. exact (all_listed_violate_sound ls_live ls_table table_listed_violate). Q
 
 (* every exemption is used: no pair of the listing is outside the table's failing pairs *)
 Definition conflicting_pairs_count : nat :=
-  length (flat_map (fun a1 => filter (fun a2 => conflictingb a1 a2 && negb (exemptb ls_live a1 a2)) ls_table) ls_table).
+  length (flat_map (fun a1 => filter (fun a2 => if conflictingb a1 a2 then negb (exemptb ls_live a1 a2) else false) ls_table) ls_table).
 
 Lemma table_nonvacuous : Nat.ltb 0 conflicting_pairs_count = true.
 Proof. vm_compute. reflexivity. Qed.
@@ -56,10 +56,10 @@ Proof. vm_compute. reflexivity. Qed.
 Theorem lockset_nonvacuous :
   exists a1 a2, In a1 ls_table /\ In a2 ls_table /\ conflicting a1 a2 /\ ~ exempt ls_live a1 a2.
 Proof.
-  assert (H : existsb (fun a1 => existsb (fun a2 => conflictingb a1 a2 && negb (exemptb ls_live a1 a2)) ls_table) ls_table = true)
+  assert (H : existsb (fun a1 => existsb (fun a2 => if conflictingb a1 a2 then negb (exemptb ls_live a1 a2) else false) ls_table) ls_table = true)
     by (vm_compute; reflexivity).
   apply existsb_exists in H. destruct H as [a1 [H1 H]]. apply existsb_exists in H. destruct H as [a2 [H2 H]].
-  apply andb_true_iff in H. destruct H as [Hc He]. apply negb_true_iff in He.
+  destruct (conflictingb a1 a2) eqn:Hc; [|discriminate]. rename H into He. apply negb_true_iff in He.
   exists a1, a2. repeat split; try assumption.
   - apply conflictingb_spec in Hc. apply Hc.
   - apply conflictingb_spec in Hc. apply Hc.
@@ -109,3 +109,30 @@ Lemma reent_table_nonvacuous :
   negb (Nat.eqb (length ls_held_calls) 0)
   && existsb (fun r => negb (Nat.eqb (length (f_may r)) 0)) ls_funcs = true.
 Proof. vm_compute. reflexivity. Qed.
+
+(* wait-for graph: acyclic at the tables regenerated from the source *)
+Definition ls_order_edges := SeataV.Gen.LockSet.ls_order_edges.
+Definition ls_order_rank := SeataV.Gen.LockSet.ls_order_rank.
+
+Lemma order_table_check : order_check ls_order_edges ls_order_rank = true.
+Proof. vm_compute. reflexivity. Qed.
+
+Theorem order_acyclic_at_table : forall a, ~ WaitsFor ls_order_edges a a.
+Proof. exact (order_check_sound ls_order_edges ls_order_rank order_table_check). Qed.
+
+Lemma order_table_nonvacuous :
+  existsb (fun e => (e_from e =? "pool:sql.DB")%string) ls_order_edges = true.
+Proof. vm_compute. reflexivity. Qed.
+
+(* sync.Pool values: no use after Put in any function of the client *)
+Definition ls_pool_traces := SeataV.Gen.LockSet.ls_pool_traces.
+
+Lemma pool_table_check : forallb (fun t => pool_ok (snd t)) ls_pool_traces = true.
+Proof. vm_compute. reflexivity. Qed.
+
+Theorem pool_discipline_at_table : forall f p tr, In (f, p, tr) ls_pool_traces ->
+  forall l1 w l2, tr = (l1 ++ PUse w :: l2)%list -> sin w (p_dead (prun pst0 l1)) = false.
+Proof.
+  intros f p tr Hin. pose proof pool_table_check as H. rewrite forallb_forall in H.
+  specialize (H _ Hin). simpl in H. exact (pool_ok_sound tr H).
+Qed.
